@@ -195,13 +195,28 @@ def run_driver(ctx, driver, profile, tracefile, seed, args=None, timeout=900, en
     cmd = [driver, profile, '-seed', str(seed), '-tier', ctx.tier, '-out', tracefile, '-work', wd] + (args or [])
     t = time.time()
     errp = tracefile + '.stderr'
+    overflow = False
     with open(errp, 'w') as ef:
-        try:
-            r = subprocess.run(cmd, stdout=ef, stderr=ef, timeout=timeout, env=dict(os.environ, **(env or {})))
-            rc = r.returncode
-        except subprocess.TimeoutExpired:
-            shutil.rmtree(wd, ignore_errors=True)
-            raise Infra('driver %s timed out after %ds' % (profile, timeout))
+        # the scratch directory lives in memory (/dev/shm): an engine that writes gigabytes (e.g. a backup of files that
+        # were left extended to their mapping size) must not take the machine down - the driver is stopped when its
+        # scratch directory outgrows the cap; what it had recorded up to then is still validated
+        p = subprocess.Popen(cmd, stdout=ef, stderr=ef, env=dict(os.environ, **(env or {})))
+        cap = int(os.environ.get('VERIF_SCRATCH_CAP_MB', '6000')) * (1 << 20)
+        while True:
+            try:
+                rc = p.wait(timeout=0.5)
+                break
+            except subprocess.TimeoutExpired:
+                pass
+            if time.time() - t > timeout:
+                p.kill(); p.wait()
+                shutil.rmtree(wd, ignore_errors=True)
+                raise Infra('driver %s timed out after %ds' % (profile, timeout))
+            if scratch_bytes(wd) > cap:
+                p.kill(); p.wait()
+                rc = -9
+                overflow = True
+                break
     shutil.rmtree(wd, ignore_errors=True)
     died = None
     if rc != 0:
@@ -211,15 +226,41 @@ def run_driver(ctx, driver, profile, tracefile, seed, args=None, timeout=900, en
         pos = min([p for p in (full.find('fatal error'), full.find('panic:'), full.find('[signal ')) if p >= 0] or [-1])
         tail = full[max(0, pos - 200):pos + 8000] if pos >= 0 else full[-6000:]
         engine = pos >= 0 and ('XiXi-2024/xixi-kv' in tail or '/repo/' in tail)
-        if not engine:
-            raise Infra('driver %s failed rc=%d without an engine frame:\n%s' % (profile, rc, tail[-2000:]))
-        with open(tracefile, 'a') as f:
-            f.write(json.dumps({'ev': 'died', 'rc': rc}) + '\n')
-        died = tail
+        if engine:
+            with open(tracefile, 'a') as f:
+                f.write(json.dumps({'ev': 'died', 'rc': rc}) + '\n')
+            died = tail
+        else:
+            # the driver ended for a reason that is not the engine's (killed: out of memory, scratch cap). The events
+            # it recorded before are a genuine execution prefix: they are validated as far as they go (an incomplete
+            # last line is dropped), and only if that prefix is accepted is the death an infrastructure problem
+            keep = []
+            if os.path.exists(tracefile):
+                for ln in open(tracefile, errors='replace').read().split('\n'):
+                    try:
+                        json.loads(ln)
+                        keep.append(ln)
+                    except ValueError:
+                        pass
+            open(tracefile, 'w').write('\n'.join(keep) + ('\n' if keep else ''))
+            why = 'its scratch directory outgrew %d MB' % (cap >> 20) if overflow else 'rc=%d without an engine frame' % rc
+            return dict(rc=rc, died=None, wall=time.time() - t, summary={}, stderr=errp,
+                        infra='driver %s ended early (%s):\n%s' % (profile, why, tail[-2000:]))
     summ = {}
     if os.path.exists(tracefile + '.summary.json'):
         summ = json.load(open(tracefile + '.summary.json'))
     return dict(rc=rc, died=died, wall=time.time() - t, summary=summ, stderr=errp)
+
+def scratch_bytes(path):
+    """allocated bytes under path (sparse files count what they occupy)"""
+    tot = 0
+    for root, dirs, files in os.walk(path):
+        for f in files:
+            try:
+                tot += os.lstat(os.path.join(root, f)).st_blocks * 512
+            except OSError:
+                pass
+    return tot
 
 def read_lines(path):
     with open(path) as f:
@@ -306,6 +347,8 @@ def run_trace_family(ctx, fam, driver):
             env = dict(env or {}, **fam['prepare'](ctx, fam, seed))
         d = run_driver(ctx, driver, fam['profile'], tf, seed, args=args, timeout=fam.get('driver_timeout', 1500), env=env)
         res = validate(ctx, spec, tf, enforce, consts=fam.get('consts', ''), timeout=fam.get('tlc_timeout', 1500), chunk=fam.get('chunk', 0))
+        if d.get('infra') and res['accepted']:
+            raise Infra(d['infra'])
         ntr, nev = account_trace(ctx, tf, sig=fam.get('sig'), trace_event=fam.get('trace_event', 'reset'))
         note_known(ctx, res['known_used'])
         ctx.cov['trace_runs'].append(dict(profile=fam['profile'], seed=seed, traces=ntr, events=nev, accepted=res['accepted'],
